@@ -859,6 +859,19 @@ func (br *bodyRun) addDefer(st *State, d *ssa.Defer) {
 	br.defers = append(br.defers, &deferRec{instr: d, flag: key})
 }
 
+// markCalled: a deferred call that has run counts as called (called(f#k) in assertions anchored
+// at the return that follows).
+func (br *bodyRun) markCalled(st *State, ci ssa.CallInstruction) {
+	if br.ct == nil || len(br.ct.Asserts) == 0 {
+		return
+	}
+	if n := calleeName(ci); n != "" {
+		key := fmt.Sprintf("called|%s#%d", n, br.siteOrdinal(ci, n))
+		br.fc.keySort[key] = "Bool"
+		st.heap[key] = "true"
+	}
+}
+
 func (br *bodyRun) runDefers(st *State, b *ssa.BasicBlock, idx int) {
 	fc := br.fc
 	for i := len(br.defers) - 1; i >= 0; i-- {
@@ -869,12 +882,14 @@ func (br *bodyRun) runDefers(st *State, b *ssa.BasicBlock, idx int) {
 		}
 		if flag == "true" {
 			br.call(st, d.instr, b, idx)
+			br.markCalled(st, d.instr)
 			continue
 		}
 		// conditionally executed defer: run on a copy and merge
 		s2 := st.clone()
 		fc.assume(s2, flag)
 		br.call(s2, d.instr, b, idx)
+		br.markCalled(s2, d.instr)
 		s1 := st.clone()
 		fc.assume(s1, not(flag))
 		m := br.mergeStates([]*State{s2, s1})
@@ -1083,6 +1098,10 @@ func calleeName(ci ssa.CallInstruction) string {
 	}
 	switch f := c.Value.(type) {
 	case *ssa.Function:
+		// an instance of a generic function is called by the generic's name
+		if o := f.Origin(); o != nil {
+			return o.Name()
+		}
 		return f.Name()
 	case *ssa.Builtin:
 		return f.Name()
